@@ -8,5 +8,5 @@ Extraction "dvfib_model.ml"
   set_at set_eqb peer_ok mem apply_ops apply_dirty
   fib_empty fib_update update_h rt_run rt_apply rt_lookup desired mirrorsb build_entries cands desired_keys
   xstep xinit loop_cond
-  cost_infinity pub_snap_test fetch_snap_test
+  cost_infinity pub_snap_test fetch_snap_test fetch_threshold
   N.add N.mul N.of_nat N.to_nat N.eqb N.ltb N.leb N.div N.modulo N.compare.
